@@ -9,12 +9,24 @@ from . import corpus, project
 from .tlc import run_trace_tlc
 
 
-def run_wire(mode: str, recs: list, wd: Path, tag: str):
-    inp, outp = wd / f"{tag}-in.json", wd / f"{tag}-out.json"
-    inp.write_text(json.dumps(recs))
-    _, v = run_trace_tlc("Trace_Wire", "Trace_Wire.cfg", inp, outp, name=f"Trace_Wire-{tag}",
-                         extra_env={"MODE": mode}, heap="2g", timeout=3000)
-    return v
+def run_wire(mode: str, recs: list, wd: Path, tag: str, shard: int = 600):
+    """records -> Trace_Wire verdicts; large inputs are judged in shards of `shard` records by parallel JVMs
+    (TLC holds the whole deserialised input in memory) and the answers are stitched together"""
+    from concurrent.futures import ThreadPoolExecutor
+    parts = [recs[i:i + shard] for i in range(0, len(recs), shard)] or [[]]
+
+    def one(j):
+        inp, outp = wd / f"{tag}-in{j}.json", wd / f"{tag}-out{j}.json"
+        inp.write_text(json.dumps(parts[j]))
+        _, v = run_trace_tlc("Trace_Wire", "Trace_Wire.cfg", inp, outp, name=f"Trace_Wire-{tag}{j}",
+                             extra_env={"MODE": mode}, heap="2g", timeout=3000)
+        return v
+    with ThreadPoolExecutor(min(8, len(parts))) as ex:
+        outs = list(ex.map(one, range(len(parts))))
+    if mode == "EMIT":
+        return [x for o in outs for x in o]
+    bad = [dict(b, k=b["k"] + j * shard) for j, o in enumerate(outs) for b in o["bad"]]
+    return {"n": sum(o["n"] for o in outs), "bad": bad}
 
 
 def pick_messages(db, rng: random.Random, per_def: int, want, tier: str):
